@@ -883,6 +883,8 @@ class State:
                 return self.apply(a[1], [] if is_opt else [cfield(recv, '0')], node)
             if last == 'unwrap_or_default' and recv[0] == 'ctor' and recv[2] == good:
                 return cfield(recv, '0')
+            if last == 'flatten' and is_opt and recv[0] == 'ctor':
+                return NONE if recv[2] == 'None' else cfield(recv, '0')
             if last == 'transpose' and len(a) == 1:
                 # Option<Result<T, E>> <-> Result<Option<T>, E>
                 if recv[0] != 'ctor':
@@ -1000,7 +1002,20 @@ class State:
         v = self.refine(v)
         if v[0] in ('list', 'seq'):
             return v
+        if v[0] == 'ctor' and self.f.adt(v[1]) and self.f.adt(v[1]).get('local'):
+            # a named iterator struct of this crate wrapping one inner iterator (`Iter { dead, inner: self.inner.iter() }`):
+            # its items are items of the inner iterator (possibly not all of them) - like `inner.filter(..)`
+            if any(re.match(r'^<%s(<.*?>)? as std::iter::Iterator>::next$' % re.escape(v[1]), k) for k in self.wrapper_iters()):
+                inner = [fv for fn_, fv in v[3] if isinstance(fv, tuple) and fv and (
+                    fv[0] == 'seq' or (fv[0] == 'call' and fv[1].split('::')[-1] in ('iter', 'iter_mut', 'into_iter', 'drain', 'values', 'keys')))]
+                if len(inner) == 1:
+                    return self.seq_of(inner[0])
         return ('seq', v, ('elem', v))
+
+    def wrapper_iters(self):
+        if not hasattr(self.f, '_iter_impls'):
+            self.f._iter_impls = [k for k in self.f.hir if k.endswith(' as std::iter::Iterator>::next')]
+        return self.f._iter_impls
 
     def apply(self, f, args, node):
         f = self.refine(f)
@@ -1944,6 +1959,24 @@ class State:
         body = e['body']
         ifn = body.get('expr') if not body['stmts'] else None
         is_while = e.get('src') == 'While' and ifn is not None and ifn['k'] == 'If'
+        if e.get('src') != 'While' and body['stmts'] and '_as_while' not in e:
+            # `loop { if c { break } rest }` is `while !c { rest }`
+            st0 = body['stmts'][0]
+            st0 = st0.get('e', st0) if st0.get('k') == 'Semi' else st0
+            if st0.get('k') == 'If' and st0.get('e') is None:
+                tb = st0['t']
+                while tb.get('k') == 'Block' and not tb.get('stmts') and tb.get('expr'):
+                    tb = tb['expr']
+                if tb.get('k') == 'Block' and len(tb.get('stmts', [])) == 1 and not tb.get('expr'):
+                    one = tb['stmts'][0]
+                    tb = one.get('e', one) if one.get('k') == 'Semi' else one
+                if tb.get('k') == 'Break' and tb.get('e') is None and tb.get('target') in (None, loop_id):
+                    rest = {'k': 'Block', 'l': body.get('l'), 'stmts': body['stmts'][1:], 'expr': body.get('expr')}
+                    w = {'k': 'Loop', 'src': 'While', 'id': loop_id, 'l': e.get('l'), '_as_while': True,
+                         'body': {'k': 'Block', 'stmts': [], 'expr': {
+                             'k': 'If', 'l': st0.get('l'), 'c': {'k': 'Unary', 'op': 'Not', 'a': st0['c'], 'l': st0.get('l'), 'ty': 'bool'},
+                             't': rest, 'e': st0['t']}}}
+                    return self.e_Loop(w, env)
         ex = self.explicit_iterator_loop(e, env)
         if ex is not None:
             it_id, it_term, pat, lbody = ex
